@@ -913,6 +913,90 @@ def track_registered(step, tracked_src, res, fail):
     return out
 
 
+def directive_cases(ctx, source, funcs, rng, fail):
+    """Two uses of schema directives / visitors checked by the direct oracle only (no model step):
+    (1) a SchemaDirective whose `definition` is given INLINE and whose arguments use types the schema does not know;
+    (2) a visitor that removes an enum value some default value names."""
+    from py_gql.exc import SchemaError, SDLError
+    from py_gql.schema import (Argument, Directive, EnumType, InputField, InputObjectType, InterfaceType, ObjectType,
+                               SchemaVisitor)
+    from py_gql.schema.transforms import transform_schema
+    from py_gql.sdl import SchemaDirective
+    from py_gql.sdl.schema_directives import apply_schema_directives
+    lvl = EnumType("C14Level", ["LOW", "HIGH"])
+    opts = InputObjectType("C14Opts", [InputField("level", lvl)])
+
+    class Inline(SchemaDirective):
+        definition = Directive("c14inline", ["FIELD_DEFINITION"],
+                               [Argument("level", lvl, default_value="LOW")] + ([Argument("opts", opts)] if rng.random() < 0.5 else []))
+    try:
+        r = apply_schema_directives(source.clone(), [Inline])
+        r.validate()
+    except (SchemaError, SDLError) as e:
+        r = None
+        fail("step-raises:schema-directive-inline-definition:%s" % type(e).__name__,
+             "apply_schema_directives with an inline directive definition raised %s: %s" % (type(e).__name__, e))
+    if r is not None:
+        ctx.count()
+        ctx.stat("directive-case:inline-definition")
+        bad = [b for b in W.closed_violations(r) if "directive argument" in b or "C14" in b]
+        if bad:
+            fail("closed:schema-directive-inline-definition:unregistered",
+                 "after applying a schema directive whose definition is given inline the schema is not closed: %s" % bad[0])
+        else:
+            types, dirs = W.introspect(r)
+            if types is None or "C14Level" not in types or "c14inline" not in (dirs or []):
+                fail("closed:schema-directive-inline-definition:introspection",
+                     "introspection does not list the directive given inline / the type of its argument")
+    # (2)
+    cands = []
+    for n, t in source.types.items():
+        if n.startswith("__"):
+            continue
+        members = []
+        if isinstance(t, (ObjectType, InterfaceType)):
+            members = [(n, f.name, a) for f in t.fields for a in f.arguments]
+        elif isinstance(t, InputObjectType):
+            members = [(n, None, f) for f in t.fields]
+        for tn, fn_, a in members:
+            from py_gql.schema import unwrap_type
+            b = unwrap_type(a.type)
+            if isinstance(b, EnumType) and a.has_default_value and isinstance(a.default_value, str) and len(b.values) > 1:
+                cands.append((b.name, a.default_value))
+    if not cands:
+        return
+    en, val = rng.choice(sorted(set(cands)))
+
+    class DropValue(SchemaVisitor):
+        def on_enum(self, e):
+            self._e = e.name
+            return super().on_enum(e)
+
+        def on_enum_value(self, v):
+            return None if (self._e == en and v.name == val) else v
+    try:
+        r = transform_schema(source, DropValue())
+    except Exception:  # noqa  (refusing the removal is one acceptable policy)
+        ctx.stat("directive-case:enum-value-removal:refused")
+        return
+    ctx.count()
+    ctx.stat("directive-case:enum-value-removal")
+    e = r.types.get(en)
+    if e is None or any(v.name == val for v in e.values):
+        return
+    from py_gql import graphql_blocking
+    from py_gql.utilities import introspection_query
+    try:
+        out = graphql_blocking(r, introspection_query()).response()
+        errs = out.get("errors")
+    except Exception as x:  # noqa
+        errs = "%s: %s" % (type(x).__name__, x)
+    if errs:
+        fail("hidden-reachable:enum-value:default:introspection",
+             "enum value %s.%s was removed by a visitor but a default value still names it: the introspection query fails with %s"
+             % (en, val, str(errs)[:200]))
+
+
 def one_sequence(ctx, seed_note, size, n_steps, steps=None, build_seed=None):
     """Build one source, apply the steps (each starts from the source or from the RESULT of an earlier step), check
     everything after every step. Returns a replayable record."""
@@ -1138,7 +1222,18 @@ def one_sequence(ctx, seed_note, size, n_steps, steps=None, build_seed=None):
             if not all(sig.startswith(("registry:", "result-unusable:runtime-type-object-of-another-schema:"))
                        or (sig.startswith("step-raises:") and res is None) for sig, _ in found):
                 break
-    if not any(not sig.startswith(("registry:", "step-raises:", "result-unusable:runtime-type-object-of-another-schema:")) for sig, _ in failures):
+    hard = any(not sig.startswith(("registry:", "step-raises:", "result-unusable:runtime-type-object-of-another-schema:")) for sig, _ in failures)
+    if not hard and not ctx.out_of_time() and (seed % 2 == 0 or not lazy):
+        extra = []
+
+        def fail_extra(sig, what):
+            if not any(s0 == sig for s0, _ in failures + extra):
+                extra.append((sig, what))
+        directive_cases(ctx, source, funcs, random.Random(seed ^ 0xD1EC), fail_extra)
+        if W.dump_differs(dumper, source, base_raw):
+            fail_extra("frame:source-modified:schema-directive-case", "the source changed while schema directives were applied to a clone of it")
+        failures += extra
+    if not hard:
         # (at the END of the sequence: the registrations on these extra clones must not interfere with the steps above)
         cfg_now = getattr(ctx, "_c14_cfg", None)
         cases = [("clone", source, "source")]
@@ -1194,7 +1289,7 @@ def run(ctx):
     ctx.extra["code_variant"] = cfg
     ctx._c14_cfg = cfg
     ctx._c14_reg_cases = []
-    n_seq = ctx.n(48, 500)
+    n_seq = ctx.n(40, 440)
     budget_each = 0.8
     batch = []
     seen_sigs = set()
